@@ -614,6 +614,44 @@ type Exit struct {
 	Vals []ssa.Value
 }
 
+// ExitTuples is Exits with a return that returns joins of its own block taken apart: one tuple per incoming edge
+// (a function restructured to a single `return a, err` at the end returns, per path, what the separate returns
+// returned). From is the predecessor the tuple arrives over (nil for a return that is not split).
+type ExitTuple struct {
+	Ret  *ssa.Return
+	From *ssa.BasicBlock
+	Vals []ssa.Value
+}
+
+func ExitTuples(fn *ssa.Function) []ExitTuple {
+	var out []ExitTuple
+	for _, e := range Exits(fn) {
+		b := e.Ret.Block()
+		split := false
+		for _, v := range e.Vals {
+			if ph, ok := v.(*ssa.Phi); ok && ph.Block() == b {
+				split = true
+			}
+		}
+		if !split {
+			out = append(out, ExitTuple{e.Ret, nil, e.Vals})
+			continue
+		}
+		for i, p := range b.Preds {
+			t := ExitTuple{Ret: e.Ret, From: p}
+			for _, v := range e.Vals {
+				if ph, ok := v.(*ssa.Phi); ok && ph.Block() == b && i < len(ph.Edges) {
+					t.Vals = append(t.Vals, ph.Edges[i])
+				} else {
+					t.Vals = append(t.Vals, v)
+				}
+			}
+			out = append(out, t)
+		}
+	}
+	return out
+}
+
 // Exits lists the returns of fn reachable from the entry (the synthetic
 // "recover" block is excluded). Functions containing defer spill their results
 // to allocs ("*t0 = v; rundefers; t = *t0; return t"); the stored value is
